@@ -25,6 +25,7 @@ RULES = [
     Rule('C02.R5', 'table reads of the chip layer at note-on / note-update are in range for every instrument and controller value', 10),
     Rule('C02.R7', 'WOPN_Init: every bank array is allocated with the element count stored beside it, that count is at least 1, and constant subscripts stay below it', 4),
     Rule('C02.R8', 'the instrument pointer of a note (NULL for the place-holder of a blank instrument) is dereferenced only behind an isBlank / NULL test', 2),
+    Rule('C02.R9', 'the bank arrays are allocated only after both announced counts were compared with the bytes left, and WOPN_Init tests its allocations', 3),
     Rule('C02.R6', 'table reads inside the MAME, Nuked and GENS emulator cores are in range for every register value', 60),
 ]
 EXPLANATION = ('Byte-budget abstract interpretation (E1) of the structured bodies of the two loaders in the (cursor, length) dialect with the '
@@ -50,6 +51,7 @@ def analyse(facts, tier):
     obls += r4(facts)
     obls += r7_init(facts)
     obls += r8_note_instrument(facts)
+    obls += r9_alloc_after_counts(facts)
     # R5: the interval engine's index obligations inside the chip layer (instrument fields range over their whole type there:
     # structs of the public WOPN header are never narrowed), so a clamp that an instrument byte can defeat shows up here
     from .. import e2prog
@@ -437,6 +439,62 @@ def r8_note_instrument(facts):
                                'NoteInfo::ains is dereferenced before the note is known not to be the blank place-holder (ains == NULL): every note-off / panic / reset of a note on a blank instrument binds a reference to a null pointer'))
     if n < 2:
         raise build.AnalysisBroken('C02.R8: dereferences of NoteInfo::ains not found (%d)' % n)
+    return out
+
+
+def r9_alloc_after_counts(facts):
+    """(a) WOPN_LoadBankFromMem: the call of WOPN_Init(count_melodic, count_percussive) is dominated by a comparison that involves the
+    remaining length and both counts (a file of a few bytes must not make the loader allocate 2 x 65535 banks);
+    (b) WOPN_Init: every calloc() result stored in a field is tested (NULL -> free and return NULL) before the field is subscripted."""
+    out = []
+    ld = facts.fn('WOPN_LoadBankFromMem')
+    n = 0
+    for b, j, st in ld.cfg.stmts():
+        for x in calls_in(st['s']):
+            if short(callee_name(x)) != 'WOPN_Init':
+                continue
+            n += 1
+            args = [strip(a) for a in x.get('a', [])]
+            ids = {a.get('id') for a in args if a.get('k') == 'DeclRefExpr'}
+            seen = set()
+            length_seen = False
+            sd = single_defs(ld.d)
+            for f in guard_facts(ld, b, st):
+                if f[0] != 'cmp':
+                    continue
+                both = [subst(f[2], sd), subst(f[3], sd)]
+                txt_ids = {y.get('id') for e in both for y in walk(e) if isinstance(y, dict) and y.get('k') == 'DeclRefExpr'}
+                if any(short(y.get('n', '')) == 'length' for e in both for y in walk(e) if isinstance(y, dict) and y.get('k') == 'DeclRefExpr'):
+                    if ids & txt_ids:
+                        length_seen = True
+                        seen |= (ids & txt_ids)
+            ok = length_seen and seen == ids and len(ids) == 2
+            out.append(Obl('C02.R9', ld.name, 'WOPN_Init(%s)' % ', '.join(show(a) for a in args), st['loc'], 'discharged' if ok else 'finding',
+                           why='both counts are compared with the remaining length first' if ok else
+                           'the bank arrays are allocated from the two 16-bit counts of the header before any comparison with the file length: a file of a few bytes requests up to 2 x 65535 banks (1.2 GB)'))
+    if n < 1:
+        raise build.AnalysisBroken('C02.R9: call of WOPN_Init in the bank loader not found')
+    wi = facts.fn('WOPN_Init')
+    for b, j, st in wi.cfg.stmts():
+        ap = assign_parts(st['s'])
+        if not ap or not any('callee' in y and short(callee_name(y)) == 'calloc' for y in walk(ap[1])):
+            continue
+        tgt = strip(ap[0])
+        if tgt.get('k') != 'MemberExpr':
+            continue
+        # a test of the field follows before any other use: the next block condition mentions it
+        tested = False
+        for b2, blk in wi.cfg.blocks.items():
+            if 'cond' in blk and mentions(blk['cond'], member_named(short(tgt['n']))) and (b2 == b or wi.cfg.block_dominates(b, b2)):
+                uses_before = False
+                for b3, j3, st3 in wi.cfg.stmts():
+                    if (b3 == b and j3 > j) and any(y.get('k') == 'ArraySubscriptExpr' and mentions(y.get('b'), member_named(short(tgt['n']))) for y in walk(st3['s'])):
+                        uses_before = True
+                if not uses_before:
+                    tested = True
+        out.append(Obl('C02.R9', wi.name, '%s = calloc(..) tested' % short(tgt['n']), st['loc'], 'discharged' if tested else 'finding',
+                       why='NULL test before the array is used' if tested else
+                       'the result of calloc() for %s is not tested: when the allocation fails the loader writes bank names and instruments through a NULL array' % short(tgt['n'])))
     return out
 
 
